@@ -442,7 +442,7 @@ func weirdStrings() *kit[string] {
 	for i := 0; i < 40; i++ {
 		long += "a"
 	}
-	tab := []string{"", "\x00", "\x00\x00", " ", "A", "AA", "a", "a\x00", "aa", "ab", "b", "\x7f", "\x80", "\xc3\xa9", "\xff", "\xff\xff", long, long + "b"}
+	tab := []string{"", "\x00", "\x00\x00", " ", "A", "AA", "a", "a\x00", "aa", long, long + "b", "ab", "b", "\x7f", "\x80", "\xc3\xa9", "\xff", "\xff\xff"}
 	return &kit[string]{name: "string-special-values", size: unsafe.Sizeof(""), nkeys: len(tab),
 		mk: func(key, _ int) string { return string(append([]byte(nil), tab[key]...)) },
 		dec: func(e string) (int, int, bool) {
